@@ -5,6 +5,8 @@ import (
 	"bytes"
 	"context"
 	"crypto/md5"
+	"crypto/sha1"
+	"crypto/sha256"
 	"crypto/sha512"
 	"encoding/hex"
 	"encoding/json"
@@ -435,7 +437,21 @@ func genOffer(t *rapid.T, pool []vgen.Blob, httpPath, direct bool) *offer {
 		o.ref = vgen.RefOf(rapid.SampledFrom(others).Draw(t, "otherHash"), o.data)
 		o.RefText = o.ref.String()
 	case "unknown":
-		o.RefText = unknownRef(rapid.SampledFrom([]string{"md5", "sha384", "sha512", "blake2", "sha3"}).Draw(t, "unknownHash"), o.data)
+		uname := rapid.SampledFrom([]string{"md5", "sha384", "sha512", "blake2", "sha3"}).Draw(t, "unknownHash")
+		o.RefText = unknownRef(uname, o.data)
+		// or: an unsupported NAME in front of the digest a SUPPORTED function gives for these bytes
+		// (a fallback to a default hash for unknown names would accept exactly these)
+		switch rapid.IntRange(0, 5).Draw(t, "unknownDigestOf") {
+		case 0:
+			d := sha256.Sum224(o.data)
+			o.RefText = uname + "-" + hex.EncodeToString(d[:])
+		case 1:
+			d := sha1.Sum(o.data)
+			o.RefText = uname + "-" + hex.EncodeToString(d[:])
+		case 2:
+			d := sha256.Sum256(o.data)
+			o.RefText = uname + "-" + hex.EncodeToString(d[:])
+		}
 		r, ok := blob.Parse(o.RefText)
 		if !ok {
 			t.Fatalf("harness: %q should parse as an unknown-hash ref", o.RefText)
@@ -466,22 +482,22 @@ func (o *offer) finish() {
 // the world of one case
 
 type world struct {
-	t      *rapid.T
-	b      *vcompose.Built
-	sto    blobserver.Storage
-	front  *stoConf
-	obsSto *observer
-	obsFr  *observer
-	model  *vmodel.Map
-	pool   []vgen.Blob
-	desc   string
-	log    []*request
-	known  map[blob.Ref]bool // supported refs ever offered or pooled
-	unk    map[blob.Ref]bool // unknown-hash refs offered
-	nOffer int
-	id     string
+	t          *rapid.T
+	b          *vcompose.Built
+	sto        blobserver.Storage
+	front      *stoConf
+	obsSto     *observer
+	obsFr      *observer
+	model      *vmodel.Map
+	pool       []vgen.Blob
+	desc       string
+	log        []*request
+	known      map[blob.Ref]bool // supported refs ever offered or pooled
+	unk        map[blob.Ref]bool // unknown-hash refs offered
+	nOffer     int
+	id         string
 	hasEncrypt bool
-	stop   bool // an open known finding was hit: end the case (successfully)
+	stop       bool // an open known finding was hit: end the case (successfully)
 }
 
 func (w *world) dump() string {
@@ -1173,10 +1189,10 @@ func runBoundary(t *rapid.T) {
 		base int
 		mut  string
 	}{
-		{0, "extend"},                 // extension of the exactly-16-MiB blob, true blob not stored yet
-		{1, "identity"},               // 16 MiB + 1 under its own (matching) ref
-		{0, "identity"},               // exactly 16 MiB: accepted
-		{0, "extend"},                 // extension again, now under an already-stored ref
+		{0, "extend"},   // extension of the exactly-16-MiB blob, true blob not stored yet
+		{1, "identity"}, // 16 MiB + 1 under its own (matching) ref
+		{0, "identity"}, // exactly 16 MiB: accepted
+		{0, "extend"},   // extension again, now under an already-stored ref
 		{0, rapid.SampledFrom([]string{"truncate", "bitflip"}).Draw(t, "lastMut")},
 	}
 	for i, s := range steps {
